@@ -297,6 +297,9 @@ func (st *gtState) methodDiverges(g *gen, dir, key string, depth int) bool {
 }
 
 func (tr *gtTr) stmt(s ast.Stmt, env *venv, next cont) gnode {
+	if s2 := tr.inlinePlaces(s, env); s2 != nil {
+		return tr.stmt(s2, env, next)
+	}
 	if ss, ok := tr.hoistMutCall(s, env); ok {
 		return tr.block(ss, env, next)
 	}
@@ -1094,6 +1097,9 @@ func singleIfReturn(b *ast.BlockStmt) (*ast.IfStmt, *ast.ReturnStmt) {
 
 // first-match search:  for _, x := range xs { if cond { return e } }
 func (tr *gtTr) rangeStmt(x *ast.RangeStmt, env *venv, next cont) gnode {
+	if rs := tr.asRevRangeR(x, env); rs != nil {
+		return tr.generalRange(rs, env, next) // a walk from the end: always the list loop over rev xs
+	}
 	if rs := tr.asValueRange(x, env); rs != nil {
 		x = rs
 	}
@@ -1125,6 +1131,9 @@ func (tr *gtTr) rangeStmt(x *ast.RangeStmt, env *venv, next cont) gnode {
 func (tr *gtTr) forStmt(x *ast.ForStmt, env *venv, next cont) gnode {
 	if !isFirstMatchFor(x) {
 		if rs := tr.asRange(x, env); rs != nil {
+			return tr.generalRange(rs, env, next)
+		}
+		if rs := tr.asRevRangeF(x, env); rs != nil {
 			return tr.generalRange(rs, env, next)
 		}
 		return tr.generalFor(x, env, next)
